@@ -123,6 +123,20 @@ static void random_solver_params(Prm &p, Rng &r, int si) {
     if (si == 6) { if (r.coin()) p.seti(s + "s", (int)r.range(1, 6)); if (r.coin()) p.setf(s + "omega", (float)r.uni(0.5, 0.9)); if (r.coin(0.3)) p.seti(s + "smoothing", 1); if (r.coin(0.3)) p.seti(s + "replacement", 1); }
     if (si == 7 && r.coin()) p.setf(s + "damping", (float)r.uni(0.5, 1.0));
 }
+// History on one handle: a component type is first set to some OTHER valid name, the options follow, and the type is finally set
+// to the wanted name.  put() semantics: the last value wins and the options set in between survive.  (added after seeded changes
+// made the setters append instead of overwrite, resp. wipe the sibling options when a type key is switched)
+static void retype(Prm &p, Rng &r) {
+    std::vector<size_t> idx; for (size_t i = 0; i < p.ops.size(); ++i) { const std::string &nm = p.ops[i].name; if (p.ops[i].kind == 's' && nm.size() >= 4 && nm.compare(nm.size() - 4, 4, "type") == 0) idx.push_back(i); }
+    if (idx.empty()) return; size_t k = idx[r.next() % idx.size()]; Op real = p.ops[k]; Op other = real;
+    auto pick = [&](const char *const *list, int n) { for (int t = 0; t < 20; ++t) { std::string c = list[r.next() % n]; if (c != real.sv) return c; } return real.sv; };
+    if (real.name.find("coarsening.type") != std::string::npos) other.sv = pick(COARSENINGS, 4);
+    else if (real.name.find("relax.type") != std::string::npos) other.sv = pick(RELAXATIONS, 9);
+    else if (real.name.find("solver.type") != std::string::npos) other.sv = pick(SOLVERS, 8);     // (preonly, index 8, is not used as the decoy)
+    else return;
+    if (other.sv == real.sv) return;
+    p.ops.erase(p.ops.begin() + k); p.ops.insert(p.ops.begin(), other); p.ops.push_back(real); vf::obs_sum("retype_histories");
+}
 // Move a random subset of the operations into a JSON document (nested objects); the rest stays with the setters.
 struct JNode { std::map<std::string, JNode> kids; std::string leaf; bool is_leaf = false; };
 static void jput(JNode &root, const std::string &path, const std::string &text) { JNode *n = &root; size_t b = 0; while (true) { size_t d = path.find('.', b); std::string k = path.substr(b, d == std::string::npos ? d : d - b); n = &n->kids[k]; if (d == std::string::npos) break; b = d + 1; } n->is_leaf = true; n->leaf = text; }
@@ -154,6 +168,12 @@ static Csr<double> gen_sorted_system(Rng &r, std::string &fam, bool big) {
 // entries of every row randomly permuted (or reversed).  All entry points -- 0-based, 1-based, C++ -- get the same arrays.
 static Csr<double> gen_system(Rng &r, std::string &fam, bool big) {
     Csr<double> A = gen_sorted_system(r, fam, big);
+    // explicitly stored zeros (valid CRS: e.g. a 5-point operator kept on a 9-point pattern): extra off-diagonal entries with value 0
+    // are inserted into every row; all entry points and the C++ twin must see the same pattern
+    if (r.coin(0.3)) { Csr<double> Z(A.n, A.m); for (size_t i = 0; i < A.n; ++i) { std::vector<std::pair<ptrdiff_t, double>> row; for (auto j = A.ptr[i]; j < A.ptr[i + 1]; ++j) row.emplace_back(A.col[j], A.val[j]);
+            for (int t = 0; t < 2; ++t) { ptrdiff_t cnew = (ptrdiff_t)(r.next() % A.m); bool have = false; for (auto &e : row) if (e.first == cnew) have = true; if (!have) row.emplace_back(cnew, 0.0); }
+            std::sort(row.begin(), row.end()); for (auto &e : row) Z.push(e.first, e.second); Z.end_row(); }
+        A = Z; fam += "/stored-zeros"; vf::obs_sum("stored_zero_systems"); }
     if (r.coin(0.4)) { bool rev = r.coin(0.3); A = vf::shuffle_rows(A, r, rev); fam += rev ? "/rows-reversed" : "/rows-shuffled"; vf::obs_sum("unsorted_row_systems"); }
     return A;
 }
@@ -172,7 +192,7 @@ static void sub_precond() {
         if (!vf::selected("precond", idx)) continue;
         Rng r(vf::case_seed("precond", idx)); std::string fam; Csr<double> A = gen_system(r, fam, idx % 4 == 3);
         int ci = (int)(idx % 4), ri = (int)(idx / 4 % 9); bool noprm = idx % 36 == 35;
-        Prm p; if (!noprm) { random_amg_params(p, "", r, A.n, ci, ri); if (r.coin(0.4)) split_to_json(p, r); }
+        Prm p; if (!noprm) { random_amg_params(p, "", r, A.n, ci, ri); if (r.coin(0.4)) split_to_json(p, r); if (r.coin(0.35)) retype(p, r); }
         Case c("precond", idx, J().s("family", fam).n("n", A.n).n("nnz", A.nnz()).bl("null_params", noprm).s("prm", p.show()));
         JsonFile jf(p.json, idx);
         CArrays a0(A, 0), a1(A, 1);
@@ -213,7 +233,7 @@ static void sub_solver() {
         if (vf::thorough() && idx % 60 == 7) { vf::GridSpec g; A = vf::model_problem(r, 3000, 8000, &g); fam = "grid_large"; }   // a few larger systems (several levels)
         Csr<double> A2 = replacement(A, r);
         int si = (int)(idx % 9), ci = (int)(idx / 9 % 4), ri = (int)r.range(0, 8); bool noprm = idx % 54 == 53;
-        Prm p; if (!noprm) { random_amg_params(p, "precond.", r, A.n, ci, ri); random_solver_params(p, r, si); if (r.coin(0.4)) split_to_json(p, r); }
+        Prm p; if (!noprm) { random_amg_params(p, "precond.", r, A.n, ci, ri); random_solver_params(p, r, si); if (r.coin(0.4)) split_to_json(p, r); if (r.coin(0.35)) retype(p, r); }
         Case c("solver", idx, J().s("family", fam).n("n", A.n).n("nnz", A.nnz()).bl("null_params", noprm).s("prm", p.show()));
         JsonFile jf(p.json, idx);
         CArrays a0(A, 0), a1(A, 1), b0(A2, 0), b1(A2, 1);
